@@ -24,6 +24,10 @@ package statedifflength
 //@ func blockRange
 //@   trusted
 //@   logged
+//@ func newIngestor
+//@   trusted
+//@ func newCommitter
+//@   trusted
 
 // The migration reports completion without doing any work only if there is nothing at or below
 // the chain height left to backfill; otherwise the block range it processes runs from the start
